@@ -18,7 +18,14 @@ with the client closed by SOMEONE ELSE than the connection task, at a moment cho
            "busy"    the generator is in the middle of handling request #after-1 (awaiting something else); it finds its
                      client closed when it resumes, and goes back to `yield` (optionally with a further complete request
                      of the peer already received: it must not be delivered any more)
-  how      "aclose" | "force" (`aclose_forcefully(client)`)
+  how      "aclose" | "force" (`aclose_forcefully(client)`) | "cancel" (`client.aclose()` run in a task that is cancelled
+           after `cancel_after` loop turns)
+  sender   true: while all this happens a task started by on_connection() is parked INSIDE `client.send_packet()` of a packet
+           far larger than the socket buffers (the peer does not read): it holds the per-client send lock, which
+           `client.aclose()` needs.  A graceful close then waits for it (the peer starts reading once the close has begun), a
+           forceful / cancelled one must close the connection at once: `client.is_closing()` true when the closing call
+           returns, the peer sees the end of the connection (after the bytes already in flight), nothing is delivered any
+           more.  The generators of A send no answers in this mode (they would queue behind the big packet).
   spawn    "tg" (a task group the handler opened in service_init) | "task" (`asyncio.create_task`)
 
 Everything is driven by ONE event loop (server, peers, closers); the only asynchronous party is the kernel's loopback.
@@ -36,7 +43,7 @@ coroutine the server gives to `serve()` (task started / task ended, `transport.i
 case = {"layer": "loop", "path": "copy"|"buffered", "closer", "moment", "how", "spawn", "after": n, "per_gen": 0|1|2|3
         (requests per handle() generator, 0 = one generator for ever), "timeout": null|seconds (what the generators yield),
         "oc": "coro"|"gen", "partial": bool (half a request of the peer sits in the consumer at the time of the close),
-        "extra": bool (moment busy: one more complete request already sent)}
+        "extra": bool (moment busy: one more complete request already sent), "sender": bool, "cancel_after": turns}
 """
 from __future__ import annotations
 
@@ -59,6 +66,9 @@ from easynetwork.servers.async_tcp import AsyncTCPNetworkServer
 from easynetwork.servers.handlers import AsyncStreamRequestHandler, INETClientAttribute
 
 HOST = "127.0.0.1"
+BIG_PACKET = 256 * 1024           # far more than the (shrunk) socket buffers + the peer's (shrunk) stream reader can hold
+SMALL_BUF = 4096
+BIG_TEXT = "x" * BIG_PACKET
 CLOSERS = ("helper", "onconn", "other", "inline", "peer")
 MOMENTS = ("parked", "busy")
 
@@ -158,6 +168,9 @@ class Scenario:
         self.ready = asyncio.Event()        # A is where the case wants it to be when it gets closed
         self.gate = asyncio.Event()         # moment busy: what A's generator waits for while its client is being closed
         self.closer_state = "not-started"
+        self.closing_after: bool | None = None   # client.is_closing() right after the closing call returned
+        self.sender: bool = bool(case.get("sender"))
+        self.sender_state = "not-started"
         self.keep: list[Any] = []
         self.tg: Any = None
 
@@ -179,8 +192,29 @@ class Scenario:
     async def do_close(self, client: Any) -> None:
         if self.how == "force":
             await aclose_forcefully(client)
+        elif self.how == "cancel":
+            t = asyncio.ensure_future(client.aclose())
+            for _ in range(int(self.case.get("cancel_after", 1))):
+                await asyncio.sleep(0)
+            t.cancel()
+            await asyncio.wait({t})
+            if not t.cancelled() and t.exception() is not None:
+                raise t.exception()  # type: ignore[misc]
         else:
             await client.aclose()
+
+    async def big_send(self, client: Any) -> None:
+        """the helper that sits inside client.send_packet() (write flow control: the peer does not read) with the send lock"""
+        self.sender_state = "sending"
+        try:
+            await client.send_packet(BIG_TEXT)
+        except asyncio.CancelledError:
+            self.sender_state = "cancelled"
+            raise
+        except BaseException as e:  # noqa: BLE001
+            self.sender_state = "failed:" + type(e).__name__
+        else:
+            self.sender_state = "sent"
 
     async def close_a(self, by: str, wait_ready: bool = True) -> None:
         """what every closer runs: wait until A is where the case wants it, two more loop turns (so that the connection
@@ -196,9 +230,11 @@ class Scenario:
         try:
             await self.do_close(client)
         except BaseException as e:  # noqa: BLE001
+            self.closing_after = bool(client.is_closing())
             self.closer_state = "failed:" + type(e).__name__
             self.gate.set()
             raise
+        self.closing_after = bool(client.is_closing())
         self.closer_state = "done"
         self.gate.set()
 
@@ -240,6 +276,10 @@ class Handler(AsyncStreamRequestHandler[str, str]):
         who = sc.name(client)
         sc.clients[who] = client
         sc.ev(who, "oc:start")
+        if who == "A" and sc.sender:
+            with contextlib.suppress(Exception):
+                client.extra(INETClientAttribute.socket).setsockopt(socket.SOL_SOCKET, socket.SO_SNDBUF, SMALL_BUF)
+            sc.spawn(sc.big_send, client)
         if who == "A" and sc.closer == "onconn":
             sc.spawn(sc.close_a, "onconn")
         return who
@@ -257,7 +297,8 @@ class Handler(AsyncStreamRequestHandler[str, str]):
             req = yield sc.timeout
             sc.nreq[who] += 1
             sc.ev(who, f"req:{req}")
-            await client.send_packet("welcome")
+            if not (sc.sender and who == "A"):
+                await client.send_packet("welcome")
         except GeneratorExit:
             sc.ev(who, "oc:closed")
             raise
@@ -288,6 +329,8 @@ class Handler(AsyncStreamRequestHandler[str, str]):
                 if req == "kill" and who == "B":
                     await sc.close_a("other")
                 await sc.busy_point(who, client)
+                if sc.sender and who == "A":
+                    continue        # (an answer would queue behind the big packet of the parked sender)
                 try:
                     await client.send_packet("ok " + req)
                 except ClientClosedError:
@@ -315,6 +358,8 @@ class Peer:
     def __init__(self, sc: Scenario, name: str, addr: tuple[str, int]) -> None:
         self.sc, self.name, self.addr = sc, name, addr
         self.sock = socket.socket(socket.AF_INET, socket.SOCK_STREAM)
+        if sc.sender and name == "A":
+            self.sock.setsockopt(socket.SOL_SOCKET, socket.SO_RCVBUF, SMALL_BUF)
         self.sock.bind((HOST, 0))
         self.sock.setblocking(False)
         self.port = self.sock.getsockname()[1]
@@ -333,7 +378,8 @@ class Peer:
     async def connect(self) -> None:
         loop = asyncio.get_running_loop()
         await self.bounded(loop.sock_connect(self.sock, self.addr), "connect")
-        r = await self.bounded(asyncio.open_connection(sock=self.sock), "connect")
+        small = {"limit": SMALL_BUF} if (self.sc.sender and self.name == "A") else {}
+        r = await self.bounded(asyncio.open_connection(sock=self.sock, **small), "connect")
         if r is not None:
             self.reader, self.writer = r
 
@@ -358,6 +404,22 @@ class Peer:
         if not line.endswith(b"\n"):
             return "eof-after:" + line.decode(errors="replace")
         return line[:-1].decode(errors="replace").replace(" ", "_")
+
+    async def drain(self, label: str = "peer-eof") -> str:
+        """read whatever is still in flight, until the connection ends"""
+        if self.reader is None:
+            return "no-connection"
+        try:
+            while True:
+                data = await self.bounded(self.reader.read(1 << 16), label)
+                if data is None:
+                    return "timeout"
+                if not data:
+                    return "eof"
+        except ConnectionError:
+            return "reset"
+        except OSError as e:
+            return "oserror:" + type(e).__name__
 
     async def ask(self, req: str, suffix: bytes = b"") -> str:
         self.send(req.encode() + b"\n" + suffix)
@@ -438,6 +500,13 @@ async def _session(case: dict, b: Bounds) -> list[str]:
             await B.ask("login")
         await B.ask("b0")
         await A.connect()
+        if sc.sender:
+            # the helper must really be parked inside send_packet() (flow control), holding the send lock
+            await wait_io(lambda: sc.sender_state != "not-started", b, "A:sender-start")
+            for n in range(40):
+                await asyncio.sleep(0 if n % 20 else 0.002)
+            if sc.sender_state != "sending":
+                raise core.InfraError(f"C15 loop: the big packet went through ({sc.sender_state}): the sender is not parked")
         reqs = requests_of(case)
         busy = sc.moment == "busy"
         for i, r in enumerate(reqs):
@@ -449,6 +518,9 @@ async def _session(case: dict, b: Bounds) -> list[str]:
                 suffix = b"extra\n" + suffix
             if last and busy:
                 A.send(r.encode() + b"\n" + suffix)       # (no answer awaited: the handler is kept busy with it)
+            elif sc.sender:
+                A.send(r.encode() + b"\n" + suffix)       # (no answers in this mode: wait until the handler has seen it)
+                await wait_io(lambda: sc.nreq["A"] >= i + 1, b, f"A:request-{i}")
             else:
                 await A.ask(r, suffix)
         # ---- the close
@@ -465,19 +537,39 @@ async def _session(case: dict, b: Bounds) -> list[str]:
                 B.send(b"kill\n")
             # getting to the close may involve the kernel (the request that keeps the generator busy, B's "kill"): wall-clock
             # bound.  From the moment the closing call has RETURNED, nothing but loop turns is needed: turn bound.
+            drain = None
+            if sc.sender and sc.how == "aclose":
+                # a graceful close waits for the send in progress: the peer starts reading once the close has begun
+                await wait_io(lambda: sc.closer_state in ("closing", "done") or sc.closer_state.startswith("failed"), b, "A:close-start")
+                drain = asyncio.ensure_future(A.drain())
             await wait_io(lambda: sc.closer_state == "done" or sc.closer_state.startswith("failed"), b, "A:close")
-            finished = await settle(lambda: port_a in obs.ended, b, "A:connection-task")
+            if sc.closing_after is not True:
+                # the closing call returned and the client is not even marked closing: nothing will end by itself:
+                # no point in waiting for the peer to see the end of the connection
+                seen = ["skipped"]
+                finished = port_a in obs.ended
+                if drain is not None:
+                    drain.cancel()
+            elif sc.sender:
+                # the bytes already in flight, then the end of the connection; the parked send ends with the transport
+                seen = [await (drain if drain is not None else A.drain())]
+                finished = await wait_io(lambda: port_a in obs.ended, b, "A:connection-task")
+            else:
+                seen = None
+                finished = await settle(lambda: port_a in obs.ended, b, "A:connection-task")
         if sc.closer == "other":
             B.answers.append(await B.recv())
         if sc.closer != "peer":
             # what the peer sees (answers that were in flight first)
-            seen = []
-            for _ in range(4):
-                a = await A.recv("peer-eof")
-                seen.append(a)
-                if not a.startswith("ok_"):
-                    break
+            if seen is None:
+                seen = []
+                for _ in range(4):
+                    a = await A.recv("peer-eof")
+                    seen.append(a)
+                    if not a.startswith("ok_"):
+                        break
             lines.append("A-peer " + " ".join(seen))
+            lines.append(f"after-close closing={-1 if sc.closing_after is None else int(sc.closing_after)}")
         await B.ask("b1")
         # ---- observations
         for who in ("A", "B"):
@@ -489,6 +581,8 @@ async def _session(case: dict, b: Bounds) -> list[str]:
         lines.append(f"A-gens started={sc.ngen['A']} finalised=" + ",".join(f"{k}:{len(v)}" for k, v in sorted(fin.items())))
         if sc.closer not in ("peer",):
             lines.append(f"closer {sc.closer_state}")
+        if sc.sender:
+            lines.append(f"sender {sc.sender_state}")
         lines.append(f"serving {int(server.is_serving())} servetask {'running' if not serve.done() else 'done'}")
         if not finished:
             lines.append(f"A-hang connection task still running {b.turns} loop turns after the close")
@@ -600,6 +694,13 @@ def normalise(case: dict) -> dict:
         c["extra"] = False
     if c.get("closer") == "peer":
         c["extra"] = False
+        c["sender"] = False
+        if c.get("how") == "cancel":
+            c["how"] = "aclose"
+    if c.get("sender"):
+        c["partial"] = False        # (no dialogue in this mode: requests are sent whole)
+    if c.get("how") == "cancel":
+        c["cancel_after"] = max(1, int(c.get("cancel_after", 1)))     # (the close operation has started)
     if int(c.get("after", 1)) == 0:
         c["partial"] = False
     return c
@@ -610,7 +711,10 @@ def _get(real: list[str], prefix: str) -> str | None:
 
 
 def describe(case: dict) -> str:
-    how = "aclose_forcefully(client)" if case.get("how") == "force" else "await client.aclose()"
+    how = {"force": "aclose_forcefully(client)",
+           "cancel": f"client.aclose() cancelled after {case.get('cancel_after', 1)} loop turn(s)"}.get(case.get("how"), "await client.aclose()")
+    if case.get("sender"):
+        how += ", while a helper task started by on_connection() is parked in client.send_packet() (peer not reading) with the send lock"
     by = {"helper": "a task spawned by the handler generator", "onconn": "a task spawned by on_connection()",
           "other": "another client's handler", "inline": "the generator itself", "peer": "the peer (disconnection)"}[case.get("closer", "helper")]
     where = ("the connection task was parked in the transport receive (generator suspended at its yield for request "
@@ -628,6 +732,11 @@ def oracle(case: dict, real: list[str]) -> str | None:
     closer = case.get("closer", "helper")
     ev = (_get(real, "A ") or "").split()
     what = describe(case)
+    # the closing call has returned (or was cancelled): the client is closing
+    if closer != "peer" and _get(real, "after-close ") == "closing=0":
+        return (f"{what}: client.is_closing() is False right after the closing call returned "
+                f"(closer {_get(real, 'closer ')}): the close did nothing, the connection stays open "
+                f"(connection task: {_get(real, 'A-task ')})")
     # the connection task must end, the active generator must be closed, on_disconnection must run
     task = _get(real, "A-task ")
     n_end = sum(1 for e in ev if e.startswith("gen") and ":end:" in e)
@@ -683,7 +792,7 @@ def oracle(case: dict, real: list[str]) -> str | None:
     # what the peer got
     busy = case.get("moment") == "busy"
     answers = (_get(real, "A-answers ") or "").split()
-    want_a = [answer_of(r) for r in (want[:-1] if busy else want)]
+    want_a = [] if case.get("sender") else [answer_of(r) for r in (want[:-1] if busy else want)]
     if answers != want_a:
         return f"{what}: answers received by the peer {answers}, expected {want_a}"
     if closer != "peer":
@@ -704,12 +813,12 @@ def oracle(case: dict, real: list[str]) -> str | None:
 def nontrivial(case: dict, real: list[str]) -> str | None:
     if real == [SKIPPED]:
         return None
-    return f"loop/{case.get('path')}/{case.get('closer')}+{case.get('moment')}+{case.get('how')}"
+    return f"loop/{case.get('path')}/{case.get('closer')}+{case.get('moment')}+{case.get('how')}" + ("+sender" if case.get("sender") else "")
 
 
 def shrink(case: dict):
     for key, val in (("partial", False), ("extra", False), ("timeout", None), ("per_gen", 0), ("how", "aclose"),
-                     ("spawn", "task"), ("oc", "coro")):
+                     ("spawn", "task"), ("oc", "coro"), ("sender", False)):
         if case.get(key) != val and case.get(key) is not None:
             yield normalise({**case, key: val})
     a = int(case.get("after", 1))
@@ -739,6 +848,16 @@ def corpus() -> list[dict]:
                                  "per_gen": 2, "how": "force", "partial": True}))
             cs.append(normalise({**base, "path": path, "closer": closer, "moment": "busy", "after": 2, "per_gen": 2,
                                  "how": "force", "spawn": "task", "extra": True, "timeout": 30.0}))
+        # the client closed while a helper task is parked inside client.send_packet() with the send lock (peer not reading):
+        # gracefully (waits for the send), forcefully, by an aclose() that gets cancelled
+        for how in ("aclose", "force", "cancel"):
+            for closer, moment, after in (("inline", "busy", 1), ("inline", "parked", 1), ("helper", "parked", 1),
+                                          ("other", "parked", 0), ("onconn", "busy", 2)):
+                cs.append(normalise({**base, "path": path, "closer": closer, "moment": moment, "after": after, "how": how,
+                                     "sender": True, "cancel_after": 1}))
+            # (the cancelled close without a concurrent sender: cancelled inside the transport's own close)
+            cs.append(normalise({**base, "path": path, "closer": "helper", "moment": "parked", "after": 1, "how": how,
+                                 "cancel_after": 1}))
     return cs
 
 
@@ -746,7 +865,8 @@ def gen_case(rng) -> dict:
     return normalise({
         "layer": "loop", "path": rng.choice(["copy", "buffered"]),
         "closer": rng.choice(["helper", "helper", "onconn", "other", "other", "inline", "peer"]),
-        "moment": rng.choice(["parked", "parked", "busy"]), "how": rng.choice(["aclose", "aclose", "force"]),
+        "moment": rng.choice(["parked", "parked", "busy"]), "how": rng.choice(["aclose", "aclose", "force", "cancel"]),
+        "sender": rng.random() < 0.15, "cancel_after": rng.choice([1, 1, 2, 3]),
         "spawn": rng.choice(["tg", "task"]), "after": rng.choice([0, 1, 1, 2, 3, 4]), "per_gen": rng.choice([0, 0, 1, 2, 3]),
         "timeout": rng.choice([None, None, 30.0]), "oc": rng.choice(["coro", "coro", "gen"]),
         "partial": rng.random() < 0.3, "extra": rng.random() < 0.5, "max_recv": rng.choice([16384, 16384, 4, 1]),
